@@ -134,8 +134,8 @@ CHECKS["C13"] = dict(
           "enclosing one (C13_is_loading_iff_pending), and use_is_loading_global -- what the blocking render waits on -- is true exactly while some unfinished task holds a guard of a boundary whose counter is alive (C13_global_loading_iff; the model's flag is compared with the real one after every step of every C14 scenario); the report is a function of the set of unfinished tasks, hence independent of completion order (C13_report_depends_on_pending_set). Every run "
           "drives the real create_suspense_scope / create_suspense_task / is_loading / use_is_loading on a current-thread tokio runtime with explicit schedules over 8 shapes of trees of <= 3 "
           "boundaries, ALL orders in which <= 5 awaits complete, and compares every observation with the model; the oracle restates the iff on the observed flags. Rendering half: Async/Stream.v models sync / blocking / "
-          "streaming SSR over views of nested, sibling and dynamically created boundaries with gated async components; it is compared with the REAL render_to_string / render_to_string_await_suspense / "
-          "render_to_string_stream (ssr-driver, gates opened in every order, incl. incomplete schedules) on 229 (quick) / 300+ (thorough) (view, order) pairs, incl. Transition boundaries, resources read by dynamic views, client resources, boundaries / tasks disposed in the middle of the render by a re-rendering dynamic view, and content created or removed by a task registered under another boundary (flip / when / unless; a lenient family judges only the sync and blocking renders and the stream's liveness when the removed content lies in a region already sent): step at which the blocking render returns and its "
+          "streaming SSR over views of nested, sibling and dynamically created boundaries with gated async components (the harness's richer vocabulary -- dynamic blocks, Transition, resources read by dynamic views, flag-setting tasks and the content they create or remove -- is translated inside the development by Async/StreamX.v; Props/C13x.v pins what that translation claims); it is compared with the REAL render_to_string / render_to_string_await_suspense / "
+          "render_to_string_stream (ssr-driver, gates opened in every order, incl. incomplete schedules) on 257 + 48 (quick) / 400+ (thorough) (view, order) pairs, incl. Transition boundaries, resources read by dynamic views, client resources, boundaries / tasks disposed in the middle of the render by a re-rendering dynamic view, and content created or removed by a task registered under another boundary (flip / when / unless; a lenient family judges only the sync and blocking renders and the stream's liveness when the removed content lies in a region already sent): step at which the blocking render returns and its "
           "content, which boundaries are streamed after which gate, final document; the oracle simulates the inline script on the real chunks (a fragment whose markers are not yet in the document = child "
           "before parent), checks shell once, each boundary once, shell + fragments = blocking result = everything resolved. Found and fixed F14 (grandchild streamed before its parent). PROVED on Stream.v for ALL views and ALL gate "
           "orders (Async/StreamFacts.v, axiom-free): the blocking render returns at the first step at which no boundary has a pending task and hangs only if no prefix finishes every task (C13r_blocking_returns_when_finished, "
